@@ -1450,6 +1450,11 @@ class Terms:
             if d is not None:
                 return d
         at = tuple(self.operand(a, bb, "t", depth) for a in args)
+        if callee.startswith("core::slice::<impl [T]>::") and callee.rsplit("::", 1)[-1] in ("first_chunk", "split_first_chunk", "last_chunk", "split_last_chunk", "first_chunk_mut", "split_first_chunk_mut", "as_chunks"):
+            # the chunk size is a const generic argument: kept as an extra (last) argument of the term
+            ga = [g.strip() for g in (t.get("gargs") or [])]
+            if ga and ga[-1].isdigit():
+                at = at + (("const", int(ga[-1])),)
         return ("call", self.call_name(t), at, bb)
 
     def _conversion_body(self, t):
